@@ -251,8 +251,9 @@ PROPS['C15'] = dict(
     rule=('well-formed polygons as in C07 (narrower than 180 degrees; with holes that contain whole cells, holes smaller than a cell inside one cell, polygons smaller than a cell, needles, transmeridian, pentagon / icosahedron-edge / '
           'coarse-ancestor locations) x all 16 res x the four modes x every candidate cell near the polygon; invalid flag words. '
           'non-trivial = at least one cell with a decided overlap witness and one decided disjoint cell; distinct by polygon + res'),
-    quick=dict(cases={'fast': 3_600, 'asan': 300}),
-    thorough=dict(cases={'fast': 70_000, 'asan': 5_000}),
+    quick=dict(cases={'fast': 3_600, 'asan': 300}, enum={'fast': 8}),
+    thorough=dict(cases={'fast': 70_000, 'asan': 5_000}, enum={'fast': 8}),
+    strata=dict(quick=['k<=2 disks of both pole cells x 16 res: 2 % diamond around every boundary vertex, 10 % triangle around every edge midpoint'], thorough=['same']),
     level_text=('sandwich oracle in binary128 with a 1e-9 rad margin plus the chord/great-circle bulge of each cell edge: FULL only if centre and vertices are inside, FULL if the cell is wholly interior, OVERLAPPING if a decided witness exists '
                 '(centre / cell vertex / polygon vertex inside the other shape, robustly crossing edges) and never if the shapes are separated; exact nesting FULL<=CENTER<=OVERLAPPING<=OVERLAPPING_BBOX, no duplicates, size bound with exactly sized guarded buffers, '
                 'E_MEMORY_BOUNDS at capacity count-1 and 0, E_OPTION_INVALID for invalid flags'),
